@@ -175,6 +175,17 @@ func (l localResourceLoader) isDir(path string) bool {
 	return fileInfo.IsDir()
 }
 
+// localDir returns the directory local references of the model being loaded are relative to: the one of the local
+// resource loader (workingDir itself is relative to the parent project for an included model)
+func (o *Options) localDir(workingDir string) string {
+	for _, l := range o.ResourceLoaders {
+		if local, ok := l.(localResourceLoader); ok {
+			return local.WorkingDir
+		}
+	}
+	return workingDir
+}
+
 func (o *Options) clone() *Options {
 	return &Options{
 		SkipValidation:             o.SkipValidation,
